@@ -243,6 +243,17 @@ def legal : SPacket → Bool
 /-- a frame is legal when the packet is and its remaining length fits the four-byte limit -/
 def Legal (sp : SPacket) : Prop := sp.legal = true ∧ sp.body.length < 268435456
 
+/-- *lenient* legality: the structure is that of MQTT, but two value-level rules are dropped that a
+sender may break while the frame stays perfectly readable — any subscription option byte, and a
+SUBACK/UNSUBACK without reason codes. (Used for C01, whose domain includes such packets: the API lets a
+caller build them and the round trip must still be the identity.) -/
+def legalL : SPacket → Bool
+  | subscribe _ props filters => propsLegal 8 props && !filters.isEmpty && filters.all fun f => strOK f.1
+  | suback k _ props _ => (k == 9 || k == 11) && propsLegal k props
+  | sp => sp.legal
+
+def LegalL (sp : SPacket) : Prop := sp.legalL = true ∧ sp.body.length < 268435456
+
 /-! ### the values a specification-faithful reading gives, in the canonical accessor form -/
 
 def publishView (pre : String) (dup : Bool) (qos : UInt8) (retain : Bool) (topic : Bytes) (pid : UInt16)
